@@ -67,7 +67,7 @@ def proof_stage(pid, spec, tier, log):
     with open(audit, "w") as fh:
         for m in mods:
             fh.write(f"import {m}\n")
-        fh.write("open CasModel\n")
+        fh.write("open CasModel CasModel.Ghost\n")
         for t in spec["obligations"]:
             fh.write(f"#print axioms {t}\n")
     r = run(["lake", "env", "lean", audit], cwd=LEAN, timeout=1800)
@@ -76,7 +76,11 @@ def proof_stage(pid, spec, tier, log):
     # output: "'CasModel.thm' depends on axioms: [propext, ...]" or "... does not depend on any axioms"
     text = r.stdout.replace("\n ", " ")
     for m in re.finditer(r"'([^']+)' (depends on axioms: \[([^\]]*)\]|does not depend on any axioms)", text):
-        name = m.group(1).split(".")[-1]
+        name = m.group(1)
+        for pre in ("CasModel.Ghost.", "CasModel."):
+            if name.startswith(pre):
+                name = name[len(pre):]
+                break
         axs = [a.strip() for a in (m.group(3) or "").split(",") if a.strip()]
         axioms[name] = axs
     discharged = 0
